@@ -46,6 +46,9 @@ static llvm::cl::opt<std::string> RecRe(
 static llvm::cl::opt<std::string> Root(
     "root", llvm::cl::desc("only functions defined under this path prefix"),
     llvm::cl::cat(Cat), llvm::cl::init(""));
+static llvm::cl::opt<std::string> VarRe(
+    "vars", llvm::cl::desc("regex on qualified names of namespace-scope/static variables (initialisers)"),
+    llvm::cl::cat(Cat), llvm::cl::init(""));
 static llvm::cl::opt<bool> Calls(
     "calls", llvm::cl::desc("light dump of call edges for all functions"),
     llvm::cl::cat(Cat), llvm::cl::init(false));
@@ -57,14 +60,15 @@ struct Dumper {
   SourceManager &SM;
   PrintingPolicy PP;
   std::map<const Decl *, int> declIds;
-  json::Array functions, records, light;
+  json::Array functions, records, light, vars;
   std::set<const FunctionDecl *> done;
-  llvm::Regex funcRe, recRe;
+  llvm::Regex funcRe, recRe, varRe;
 
   explicit Dumper(ASTContext &C)
       : Ctx(C), SM(C.getSourceManager()), PP(C.getLangOpts()),
         funcRe(FuncRe.empty() ? std::string("^$") : FuncRe.getValue()),
-        recRe(RecRe.empty() ? std::string("^$") : RecRe.getValue()) {
+        recRe(RecRe.empty() ? std::string("^$") : RecRe.getValue()),
+        varRe(VarRe.empty() ? std::string("^$") : VarRe.getValue()) {
     PP.SuppressTagKeyword = true;
     PP.Bool = true;
     PP.SuppressUnwrittenScope = true;
@@ -238,6 +242,12 @@ struct Dumper {
       for (const Expr *A : CC->arguments()) args.push_back(stmtId(C, A));
       o["args"] = std::move(args);
       if (CC->getConstructor()->isCopyOrMoveConstructor()) o["copyOrMove"] = true;
+    } else if (auto *RB = dyn_cast<CXXRewrittenBinaryOperator>(S)) {
+      auto DF = RB->getDecomposedForm();
+      o["op"] = BinaryOperator::getOpcodeStr(DF.Opcode).str();
+      o["lhs"] = stmtId(C, DF.LHS);
+      o["rhs"] = stmtId(C, DF.RHS);
+      if (RB->isReversed()) o["reversed"] = true;
     } else if (auto *BO = dyn_cast<BinaryOperator>(S)) {
       o["op"] = BO->getOpcodeStr().str();
     } else if (auto *UO = dyn_cast<UnaryOperator>(S)) {
@@ -484,6 +494,24 @@ struct Dumper {
       }
   }
 
+  // ------------------------------------------------------------ variables
+  void dumpVar(const VarDecl *V) {
+    const Expr *I = V->getAnyInitializer();
+    if (!I) return;
+    FnCtx C;
+    json::Object vo;
+    vo["id"] = declId(V);
+    vo["qname"] = qname(V);
+    vo["name"] = V->getNameAsString();
+    vo["loc"] = loc(V->getLocation());
+    vo["file"] = fileOf(V->getLocation());
+    vo["type"] = typeStr(V->getType());
+    vo["params"] = json::Array();
+    vo["body"] = stmtId(C, I);
+    vo["stmts"] = std::move(C.table);
+    vars.push_back(std::move(vo));
+  }
+
   // ------------------------------------------------------------ light mode
   struct LightVisitor : RecursiveASTVisitor<LightVisitor> {
     Dumper &D;
@@ -613,6 +641,14 @@ struct TopVisitor : RecursiveASTVisitor<TopVisitor> {
     if (Calls) D.dumpLight(F);
     return true;
   }
+  bool VisitVarDecl(VarDecl *V) {
+    if (VarRe.empty()) return true;
+    if (V->isLocalVarDeclOrParm() || !V->isThisDeclarationADefinition()) return true;
+    if (V->getDeclContext()->isDependentContext()) return true;
+    if (!V->hasInit()) return true;
+    if (D.varRe.match(D.qname(V))) D.dumpVar(V);
+    return true;
+  }
   bool VisitCXXRecordDecl(CXXRecordDecl *R) {
     if (RecRe.empty()) return true;
     if (!R->isCompleteDefinition() || R->isDependentContext()) return true;
@@ -634,6 +670,7 @@ class Consumer : public ASTConsumer {
     root["functions"] = std::move(D.functions);
     root["records"] = std::move(D.records);
     root["light"] = std::move(D.light);
+    root["vars"] = std::move(D.vars);
     root["errors"] = (int64_t)Ctx.getDiagnostics().getNumErrors();
     std::error_code EC;
     if (OutFile == "-") {
